@@ -338,7 +338,9 @@ class HalfRankComponent(OutputWarper):
     )
 
     # Rank sort.
-    ranks = stats.rankdata(labels_arr, method='dense')  # nans ranked last.
+    # Dense ranks (1-based) among the finite labels; NaNs are never looked up.
+    # (scipy's rankdata returns NaN for every entry when a NaN is present.)
+    ranks = np.searchsorted(unique_labels, labels_arr) + 1
     dedup_median_index = unique_labels.searchsorted(median, 'left')
     denominator = (
         dedup_median_index + (unique_labels[dedup_median_index] == median) * 0.5
